@@ -37,6 +37,13 @@ def one(item):
             return out
         env = dict(os.environ, PYTHONPATH=wt, HOME=wt + "/.home", MPLBACKEND="Agg")
         os.makedirs(wt + "/.home", exist_ok=True)
+        # some demonstrations locate the tree relative to their own file (<tree>/mutants/<name>/demo.py): run them from there
+        inwt = os.path.join(wt, "mutants", sid)
+        os.makedirs(inwt, exist_ok=True)
+        for f in ("patch.diff", "demo.py"):
+            shutil.copy(os.path.join(src, f), inwt)
+        src_meta = src
+        src = inwt
         rc_clean, _ = sh("/venv/bin/python %s/demo.py" % src, cwd=wt, env=env, timeout=1800)
         sh("git apply %s/patch.diff" % src, cwd=wt)
         _, t = sh("/venv/bin/python -m pytest -q -p no:cacheprovider --timeout=900 --continue-on-collection-errors 2>&1 | tail -1", cwd=wt, env=env)
@@ -56,6 +63,7 @@ def one(item):
             shutil.rmtree(outdir, ignore_errors=True)
         out["checks"] = detected
         out["status"] = "ok"
+        out["src"] = src_meta
         return out
     finally:
         sh("git -C /repo worktree remove --force %s; rm -rf %s" % (wt, wt))
@@ -78,6 +86,7 @@ def main():
                 items.append((sid, src))
     with ThreadPoolExecutor(jobs) as ex:
         for res, (sid, src) in zip(ex.map(one, items), items):
+            src = res.get("src", src)
             print(json.dumps(res)[:600], flush=True)
             if res.get("confirmed"):
                 dst = os.path.join(V, "seeded", sid)
